@@ -196,11 +196,11 @@ func (fs LocalFileSystem) Create(ctx context.Context, name string, body io.ReadC
 	defer wc.Close()
 
 	if _, err := io.Copy(wc, body); err != nil {
-		os.Remove(dst)
+		removeUpload(dst)
 		return nil, false, errFromOS(err)
 	}
 	if err := wc.Close(); err != nil {
-		os.Remove(dst)
+		removeUpload(dst)
 		return nil, false, errFromOS(err)
 	}
 
@@ -220,6 +220,19 @@ func (fs LocalFileSystem) Create(ctx context.Context, name string, body io.ReadC
 	}
 
 	return fi, created, err
+}
+
+// removeUpload removes the file a failed upload has created. When the name is
+// a symbolic link whose target was missing, the new file is the target: the
+// link was there before and stays.
+func removeUpload(p string) {
+	if fi, err := os.Lstat(p); err == nil && fi.Mode()&os.ModeSymlink != 0 {
+		if target, err := filepath.EvalSymlinks(p); err == nil {
+			os.Remove(target)
+		}
+		return
+	}
+	os.Remove(p)
 }
 
 func (fs LocalFileSystem) RemoveAll(ctx context.Context, name string, opts *RemoveAllOptions) error {
